@@ -30,7 +30,7 @@ ASSUMPTIONS = [
     "parsers on arbitrary text (third-party, regex-driven): not applicable to this technique; the repository's own "
     "mapping of griffe sections is exercised with griffe's docstring objects on concrete texts only",
     "description alphabet {a,b,space,newline,*}; example-line alphabet {>,.,space,a,x,=,[,]}",
-    "cache step: _get_griffe_node replaced by a finite table (4 names, each with or without docstring)",
+    "cache step: _get_griffe_node replaced by a finite table (4 names incl. a constructor; each unknown to griffe, known without docstring, or with docstring)",
 ]
 BOUNDS = {"quick": "descriptions <= 5 chars, example lines <= 7 chars; zoo shapes one at a time; cache: 4 names",
           "thorough": "descriptions <= 7 chars, example lines <= 8 chars; zoo full product"}
@@ -55,7 +55,7 @@ def plan(tier):
         K("k_examples", "kjobs.c13", "example_lines", "example lines: only the prompt is replaced"),
         CH("attachment", "harness.c13", "attachment", ap, timeout=t, desc="every text in its own element's comment, nowhere else",
            stubs=["in-memory FS"], symbolic="shape selectors"),
-        CH("cache_step", "harness.c13", "cache_step", [f"0:{a},1:{b}" for a in range(2) for b in range(2)], timeout=t,
+        CH("cache_step", "harness.c13", "cache_step", [f"0:{a},1:{b}" for a in range(3) for b in range(3)], timeout=t,
            desc="inductive step over the one-entry docstring cache", stubs=["_get_griffe_node -> finite table"],
            symbolic="arbitrary cache pre-state, asked name, getter"),
         CH("plaintext_pick", "harness.c13", "plaintext_pick", [""], timeout=t, desc="plaintext docstring selection", stubs=["mypy -> shim"]),
